@@ -677,6 +677,190 @@ def history_case(rng):
     return {"history": steps}
 
 
+# ----------------------------------------------------------------- explicit arrays in every memory layout
+LAYOUTS = ["C", "F", "T", "strided", "reversed", "readonly", "byteswapped", "broadcast0"]
+LAYOUT_DT = ["int16", "uint8", "int64", "float32", "float64", "bool", "str"]
+K_LAYOUT = "C20:store-differs-explicit-array-layout"
+
+
+def _base(shape, dtype, salt):
+    tot = int(np.prod(shape)) if len(shape) else 1
+    b = (np.arange(tot) * 3 + salt) % 97
+    if dtype == "str":
+        a = np.array([f"s{salt}_{i}" for i in range(tot)], dtype="<U8")
+    elif dtype == "bool":
+        a = (b % 2).astype(bool)
+    elif dtype.startswith("float"):
+        a = (b / 4).astype(dtype)
+    else:
+        a = b.astype(dtype)
+    return a.reshape(shape)
+
+
+def in_layout(a, layout):
+    """the same VALUES (as seen through numpy indexing) in another memory layout"""
+    if layout == "C":
+        return np.ascontiguousarray(a)
+    if layout == "F":
+        return np.asfortranarray(a)
+    if layout == "T":                       # transposed view of C-ordered data
+        return np.ascontiguousarray(a.T).T
+    if layout == "strided":                 # every other element of a larger buffer, along every axis
+        big = np.zeros(tuple(2 * k for k in a.shape), dtype=a.dtype)
+        v = big[tuple(slice(None, None, 2) for _ in a.shape)]
+        v[...] = a
+        return v
+    if layout == "reversed":                # negative strides
+        idx = tuple(slice(None, None, -1) for _ in a.shape)
+        return np.ascontiguousarray(a[idx])[idx]
+    if layout == "readonly":
+        c = np.array(a, copy=True)
+        c.setflags(write=False)
+        return c
+    if layout == "byteswapped":
+        if a.dtype.kind in "iuf" and a.dtype.itemsize > 1:
+            return a.astype(a.dtype.newbyteorder())
+        return np.asfortranarray(a)
+    if layout == "broadcast0":              # zero strides where the values allow it, else Fortran order
+        if a.size and (a == a.flat[0]).all():
+            return np.broadcast_to(a.flat[0], a.shape)
+        return np.asfortranarray(a)
+    raise ValueError(layout)
+
+
+def layout_arrays(case):
+    """-> (extra_node_props, extra_edge_props, reference values) for a layout case; the reference is built
+    independently (C order, native byte order)"""
+    n, E = case["n"], case["E"]
+    xn, xe, ref = {}, {}, {"node": {}, "edge": {}}
+    for grp, ln, x in (("node", n, xn), ("edge", E, xe)):
+        for j, (kind, dt, lay) in enumerate(case[grp]):
+            name = f"{grp[0]}{j}_{kind}"
+            if kind == "dense1":
+                a = _base((ln,), dt, j)
+            elif kind == "dense2":
+                a = _base((ln, 3), dt, j + 5)
+            elif kind == "dense3":
+                a = _base((ln, 2, 3), dt, j + 9)
+            else:                                   # var-length: one array per element, rank 2 (or 1 / 3)
+                rank = {"vlen2": 2, "vlen1": 1, "vlen3": 3}[kind]
+                a = np.empty(ln, dtype=object)
+                for i in range(ln):
+                    shp = {1: (i + 1,), 2: (i + 2, 3), 3: (2, i + 1, 3)}[rank]
+                    if case.get("zero") and i == 1:
+                        shp = tuple(0 if k == 0 else d for k, d in enumerate(shp))
+                    a[i] = _base(shp, dt, 10 * i + j)
+            ref[grp][name] = a
+            if a.dtype == object:
+                v = np.empty(ln, dtype=object)
+                for i in range(ln):
+                    v[i] = in_layout(a[i], lay)
+                x[name] = v
+            else:
+                x[name] = in_layout(a, lay)
+    return xn, xe, ref
+
+
+def _same(x, y):
+    x, y = np.asarray(x), np.asarray(y)
+    return x.dtype.name == y.dtype.name and x.shape == y.shape and bool(np.array_equal(x, y))
+
+
+def observe_layout(case):
+    """create_mock_geff with explicit arrays in the case's layouts; the store is read back with the real
+    reader and compared ELEMENT-WISE with the in-memory geff and with the independently built reference"""
+    from geff.core_io import read_to_memory
+    from geff.testing.data import create_mock_geff
+    from geff.validate.structure import validate_structure
+
+    try:
+        xn, xe, ref = layout_arrays(case)
+    except Exception as ex:  # noqa: BLE001
+        return {"harness": f"{type(ex).__name__}: {str(ex)[:160]}"}
+    try:
+        store, mem = create_mock_geff(node_id_dtype="uint16", node_axis_dtypes={"position": "float32", "time": "float64"},
+                                      directed=case["directed"], num_nodes=case["n"], num_edges=case["E"],
+                                      extra_node_props=xn, extra_edge_props=xe, include_z=False,
+                                      include_varlength=case.get("vl", False))
+    except Exception as ex:  # noqa: BLE001
+        return {"exc": type(ex).__name__, "msg": str(ex)[:200]}
+    bad = []
+    try:
+        validate_structure(store)
+    except Exception as ex:  # noqa: BLE001
+        bad.append(f"validate_structure: {type(ex).__name__}: {str(ex)[:120]}")
+    try:
+        back = read_to_memory(store)
+    except Exception as ex:  # noqa: BLE001
+        return {"bad": bad + [f"read_to_memory: {type(ex).__name__}: {str(ex)[:160]}"]}
+    if not _same(back["edge_ids"], mem["edge_ids"]) or len(mem["edge_ids"]) != case["E"]:
+        bad.append("edge ids differ / edge count")
+    for grp in ("node", "edge"):
+        mp, bp = mem[f"{grp}_props"], back[f"{grp}_props"]
+        meta = getattr(mem["metadata"], f"{grp}_props_metadata")
+        for name, want in ref[grp].items():
+            if name not in mp or name not in bp or name not in meta:
+                bad.append(f"{grp} property {name} missing (memory {name in mp}, store {name in bp}, metadata {name in meta})")
+                continue
+            vl = want.dtype == object
+            if bool(meta[name].varlength) != vl:
+                bad.append(f"{grp} property {name}: metadata varlength={meta[name].varlength}")
+            mv, bv = mp[name]["values"], bp[name]["values"]
+            if len(mv) != len(want) or len(bv) != len(want):
+                bad.append(f"{grp} property {name}: lengths memory {len(mv)} store {len(bv)} wanted {len(want)}")
+                continue
+            for i in range(len(want)) if vl else [None]:
+                w, m_, b_ = (want[i], mv[i], bv[i]) if vl else (want, mv, bv)
+                where = f"{grp} property {name}" + (f"[{i}]" if vl else "")
+                if not _same(m_, w):
+                    bad.append(f"{where}: the in-memory geff does not hold the supplied values")
+                if not _same(b_, m_):
+                    bad.append(f"{where}: store holds {np.asarray(b_).tolist()!r:.90} ({np.asarray(b_).dtype.name}"
+                               f"{list(np.asarray(b_).shape)}) but the in-memory geff holds {np.asarray(m_).tolist()!r:.90} "
+                               f"({np.asarray(m_).dtype.name}{list(np.asarray(m_).shape)})")
+                if len(bad) > 6:
+                    return {"bad": bad}
+    return {"bad": bad}
+
+
+def layout_cases(rng, quick):
+    out = []
+    # bounded-exhaustive: every layout x every kind x every dtype once, on the node side and on the edge side
+    kinds = ["dense1", "dense2", "dense3", "vlen2", "vlen1", "vlen3"]
+    k = 0
+    for lay in LAYOUTS:
+        for kind in kinds:
+            for dt in LAYOUT_DT:
+                if kind.startswith("vlen") and dt == "str":
+                    continue
+                k += 1
+                if quick and kind in ("dense3", "vlen1", "vlen3") and k % 3:
+                    continue
+                d = bool(k % 2)
+                n = 3 + k % 2
+                E = min(2 + k % 3, n * (n - 1) // 2)
+                out.append({"layout_case": True, "directed": d, "n": n, "E": E, "node": [[kind, dt, lay]],
+                            "edge": [[kind, dt, lay]], "vl": k % 5 == 0, "zero": k % 7 == 0})
+    for _ in range(60 if quick else 600):
+        n = rng.choice([1, 2, 3, 4, 5])
+        d = rng.random() < 0.5
+        E = rng.randint(0, max_possible(d, n))
+        mk = lambda: [[rng.choice(kinds), rng.choice(LAYOUT_DT[:-1]), rng.choice(LAYOUTS)]  # noqa: E731
+                      for _ in range(rng.randint(1, 3))]
+        out.append({"layout_case": True, "directed": d, "n": n, "E": E, "node": mk(), "edge": mk(),
+                    "vl": rng.random() < 0.3, "zero": rng.random() < 0.2})
+    return out
+
+
+def judge_layout(c, o):
+    """-> list of (key, what, expected)"""
+    if "harness" in o:
+        raise RuntimeError(o["harness"])
+    if "exc" in o:
+        return [("C20:exception", f"explicit arrays of the right length raise {o['exc']}: {o.get('msg', '')}", "a valid geff")]
+    return [(K_LAYOUT, b, "store == in-memory geff == supplied values") for b in o["bad"][:3]]
+
+
 # ----------------------------------------------------------------- the check
 def tag_of(case, o):
     e = effective(case)
@@ -689,7 +873,7 @@ def tag_of(case, o):
 
 
 def run(ck: common.Check):
-    ck.prove(["GeffProps.C20", "GeffProps.C20Links"])
+    ck.prove(["GeffProps.C20", "GeffProps.C20Links", "GeffProps.C20Gen"])
     drv = ck.driver()      # built right after the translation so that it is linked against the same Gen files
     ck.rule = ("cases = corpus + every (directed, n<=N, m<=n(n-1)+2) through create_dummy_in_mem_geff + every subset of "
                "{t,z,y,x} x include_varlength x include_missing x directed x 7 sizes through create_dummy_in_mem_geff and "
@@ -697,10 +881,14 @@ def run(ck: common.Check):
                "property maps (dtype strings and explicit 1-D/2-D arrays) + a malformed stream (bad dtype / length / "
                "non-dict / key / value) + HISTORIES: 2-4 calls of the six helpers in one freshly forked process (same and different "
                "parameters), every array of each result and its metadata edited in place before the next call; each call must equal "
-               "a fresh call and results must not share memory; non-trivial = at least one node; distinct = canonical JSON of the case")
+               "a fresh call and results must not share memory; + LAYOUTS: explicit dense (1-D/2-D/3-D) and var-length (rank 1-3, "
+               "zero-sized elements) arrays x 7 dtypes presented C-contiguous / Fortran-ordered / transposed view / strided / "
+               "negative strides / read-only / byte-swapped / zero-stride, through create_mock_geff: the store read back with "
+               "read_to_memory must equal the in-memory geff and the independently built values element-wise; "
+               "non-trivial = at least one node; distinct = canonical JSON of the case")
     nmax = 9 if ck.quick else 25
-    cases = list(corpus())
-    n_corpus = len(cases)
+    cases = [c for c in corpus() if not c.get("layout_case")]
+    n_corpus = len(list(corpus()))
     cases += list(edge_grid(nmax))
     cases += list(flag_grid())
     cases += list(dtype_grid())
@@ -790,6 +978,11 @@ def run(ck: common.Check):
                             for key, _, _ in fails)
             if so["ok"] != py_ok:
                 ck.corr_broken("C20:edgesOk (Lean spec decider) vs python oracle", c, py_ok, so)
+        # source-translated generators (T24, Gen.MockData) == hand-written model on this very request
+        if "err" not in mo and not (mo.get("gen_agrees") and mo.get("gen_translationOk")):
+            ck.corr_broken("C20:Gen.MockData (T24, translated from the source) vs Geff.MockData model", c,
+                           {"gen_agrees": mo.get("gen_agrees"), "gen_translationOk": mo.get("gen_translationOk")},
+                           "the generated function returns what the model returns")
         d = guarded("comparing with the model", c, lambda: compare_model(c, o, mo, arrs[i]), "comparison failed")
         if d is not None:
             # the model describes the repaired behaviour; where the spec oracle already reports the
@@ -817,6 +1010,17 @@ def run(ck: common.Check):
             ck.fail("C20:results-share-memory",
                     f"{na} of call {i + 1} shares memory with {nb} of call {j + 1} ({len(ho['shared'])} pairs)", h,
                     ho["shared"][:6], "independent arrays")
+
+    # ---- explicit arrays (dense and var-length) in every memory layout: store == memory == supplied values
+    lcases = [c for c in corpus() if c.get("layout_case")] + layout_cases(ck.rng, ck.quick)
+    lobs = common.pmap(observe_layout, lcases, chunksize=8)
+    for c, o in zip(lcases, lobs):
+        lays = sorted({x[2] for x in c["node"] + c["edge"]})
+        ck.case(c, "layout-" + "+".join(lays)[:40] + ("-vlen" if any(x[0].startswith("vlen") for x in c["node"] + c["edge"]) else "-dense"),
+                nontrivial=True)
+        for key, what, exp in guarded("judging a layout case", c, lambda: judge_layout(c, o), []):
+            ck.fail(key, what, c, o, exp)
+    ck.extra["layout_cases"] = len(lcases)
 
     for h, ho in zip(hists, hobs):
         lens = len(h["history"])
@@ -861,6 +1065,15 @@ def replay(rp):
     c = rp["case"]
     if "history" in c:
         return replay_history(c)
+    if c.get("layout_case"):
+        o = observe_layout(c)
+        try:
+            fails = judge_layout(c, o)
+        except Exception as ex:  # noqa: BLE001
+            fails = [("C20:harness-cannot-judge-output", str(ex), "")]
+        print(json.dumps({"case": c, "observed": o, "failures": [[k, w] for k, w, _ in fails]}, default=str))
+        print("REPLAY: property holds on this input" if not fails else "REPLAY: property FAILS on this input")
+        return 0 if not fails else 1
     o = observe(c)
     try:
         fails = [] if c.get("malformed") else oracle(c, o)
